@@ -123,6 +123,10 @@ def check_C16(tier, seed):
     from props_pure import run_mc_values
     uni, _ = run_mc_values(res, wd)
     vals = uni["scalars"] + uni["lists1"] + uni["lists2"]
+    # lists shorter and longer than the tuple / array targets (a prefix must never be taken for the whole), also nested
+    i = G.I
+    vals += [G.L([i(1)]), G.L([i(1), i(2)]), G.L([i(1), i(2), i(3)]), G.L([i(1), i(2), i(3), i(4)]), G.L([i(300), i(2), i(3)]), G.L([G.L([i(1), i(2)]), G.L([i(3), i(4), i(5)])]),
+             G.L([G.L([i(1), i(2)]), G.L([i(3), i(4)])]), G.L([G.L([i(1)])]), G.L([G.NULL, i(2), i(3)]), G.L([G.S("a"), i(2), i(3)])]
     vin, vout = os.path.join(wd, "vals.ndjson"), os.path.join(wd, "vals.res.ndjson")
     write_ndjson(vin, vals); vh(["map", "valround", vin, vout])
     nontriv = 0
@@ -166,6 +170,10 @@ def check_C18(tier, seed):
     from props_pure import run_mc_values
     uni, _ = run_mc_values(res, wd)
     vals = uni["scalars"] + uni["lists1"] + uni["lists2"]
+    # lists shorter and longer than the tuple / array targets (a prefix must never be taken for the whole), also nested
+    i = G.I
+    vals += [G.L([i(1)]), G.L([i(1), i(2)]), G.L([i(1), i(2), i(3)]), G.L([i(1), i(2), i(3), i(4)]), G.L([i(300), i(2), i(3)]), G.L([G.L([i(1), i(2)]), G.L([i(3), i(4), i(5)])]),
+             G.L([G.L([i(1), i(2)]), G.L([i(3), i(4)])]), G.L([G.L([i(1)])]), G.L([G.NULL, i(2), i(3)]), G.L([G.S("a"), i(2), i(3)])]
     vin, vout = os.path.join(wd, "dvals.json"), os.path.join(wd, "dec.ndjson")
     json.dump({"values": vals}, open(vin, "w"))
     vh(["decodeall", vin, vout])
@@ -185,7 +193,7 @@ def check_C18(tier, seed):
     res.cov["evaluations"] = len(vals) * ntargets
     res.cov["distinct_nontrivial"] = len(vals) * ntargets
     res.cov["exhaustive"] = True
-    res.cov["rule"] = (f"{len(vals)} values of the TLC-dumped universe x {ntargets} target field types (i8..i64, u8..u64, f32, f64, bool, String, Option<T>, Vec<T>, nested Vec, 2-tuples) decoded by the real TryIntoStruct; "
+    res.cov["rule"] = (f"{len(vals)} values of the TLC-dumped universe x {ntargets} target field types (i8..i64, u8..u64, f32, f64, bool, String, Option<T>, Vec<T>, nested Vec, 2- and 3-tuples, [T; 2], Vec and Option of tuples) decoded by the real TryIntoStruct; "
                        "TLC judges each outcome against Decode!Outcome (ok iff representable and identical, err otherwise, 'any' where the property is silent)")
     res.cov["samples"] = [{"value": G.pretty(vals[k]), "targets": ["i8", "u64", "f64", "Option<i64>", "Vec<i64>"]} for k in (14, 25, 60)]
     return res
